@@ -23,7 +23,12 @@ Groups
   C14/mutators       obligation (2): prime, ONE mutator of the public list, [arbitrary T/flow change], read.
   C14/shared         obligation (3): handles that share data (proxy, link_with, flow_proxy, phase views,
                      from_streams): reads through one handle never make a read through another stale.
-  C14/history        end-to-end: all interleavings of reads and mutators up to a depth.
+  C14/history        end-to-end: all interleavings of reads and mutators up to a depth
+                     (quick: depth 3 + restricted alphabets to 4; thorough: depth 4 + restricted alphabets to 5/6).
+
+Every read carries the frame "the read changes neither flows, phase(s), T, P nor the package of the stream it
+reads, nor of any other stream"; mutators that take another stream as a source must leave it unchanged.
+Each configuration has a canary (a read that is off by one) that must be refuted.
 """
 import itertools
 import thermosteam as tmo
@@ -37,7 +42,6 @@ W.preload([A, B])
 # public name -> goes through _get_property(name, flow, nophase)
 PRIMARY = ('H', 'h', 'S', 'C', 'Cn', 'V', 'kappa', 'mu', 'sigma', 'epsilon', 'Hvap')
 DERIVED = ('rho', 'nu', 'alpha', 'Pr', 'Cp', 'F_vol')
-NOPHASE = ('sigma', 'epsilon', 'Hvap')
 ALLP = PRIMARY + DERIVED
 
 
